@@ -171,6 +171,8 @@ class SelectWorkers(Resource):
 
         # a dict that maps workers and selected boolean
         self._selection_dict = {}
+        # the task this selection is assigned to (see Task.add_required_resource)
+        self._required_by = None
 
         # create as many booleans as resources in the list
         for worker in self.list_of_workers:
